@@ -4,8 +4,9 @@
 //! directories, and an explicit-state search (engine E3) over operation sequences, with a
 //! boring reference tree model and std::fs as the independent observer.
 //!
-//! Phases: mkdirall, rwcopy (includes the read_to_end grid, also alone as `readend`), readdir, rmall, seq.
+//! Phases: mkdirall, rwcopy (includes the read_to_end grid, also alone as `readend`), readdir, rmall, seq (includes the OpenOptions builder histories, also alone as `builder`).
 
+mod builder;
 mod mkdirall;
 mod readdir;
 mod readend;
@@ -41,7 +42,8 @@ fn main() {
         "readdir" => readdir::phase(&args, &master.path),
         "rmall" => rmall::phase(&args, &master.path),
         "seq" => seq::phase(&args, &master.path),
-        _ => panic!("unknown phase (mkdirall|rwcopy|readend|readdir|rmall|seq)"),
+        "builder" => builder::phase(&args, &master.path),
+        _ => panic!("unknown phase (mkdirall|rwcopy|readend|readdir|rmall|seq|builder)"),
     };
     drop(master);
     let (tb, why) = util::temp_base();
@@ -68,6 +70,7 @@ fn replay(v: &serde_json::Value, r: &mut Report) {
             let v = if v.get("of").is_some() { &v["of"] } else { v };
             rwcopy::run_case(&block, &rwcopy::RwCase::from_json(v).expect("rwcopy case"), r)
         }
+        "builder" => builder::run_case(&block, &builder::parse_case(v).expect("builder case"), r),
         "readend" => readend::run_case(&block, &readend::ReCase::from_json(v).expect("readend case"), r),
         "readdir" => {
             let known = readdir::probe_dtype(&master.path);
